@@ -144,7 +144,9 @@ Section OnceProofs.
 
   Definition trace_ok (o : ostate) (R : list V) (ths : list (thread V)) (tr : list (event V)) : Prop :=
     match o with
-    | NotStarted => Forall is_inv tr /\ R = zeros
+    | NotStarted => Forall is_inv tr /\ R = zeros /\
+        (* whoever has invoked Do is still at the entry of once.Do *)
+        forall t f, In (EInv t f) tr -> exists th f', nth_error ths t = Some th /\ th_pc th = PEnter f'
     | Running w =>
         Forall pre_ev tr /\ exists f th, starts tr = [(w, f)] /\ nth_error ths w = Some th /\ run_pc w f R tr (th_pc th)
     | ODone =>
@@ -182,7 +184,7 @@ Section OnceProofs.
     - apply repeat_length.
     - intros t th H. apply nth_error_In in H. apply in_map_iff in H as (p & <- & _).
       apply passive_ok. split; simpl; auto.
-    - split; [constructor|reflexivity].
+    - split; [constructor|]. split; [reflexivity|]. intros t f [].
   Qed.
 
   (* A step that keeps the once state and the fields: only thread t changes. *)
@@ -250,7 +252,12 @@ Section OnceProofs.
       constructor; simpl; [exact HL| |].
       + eapply threads_set; eauto. unfold thread_ok; simpl. auto.
       + destruct o as [|w|]; simpl in *.
-        * destruct HTr as (HTr & HR). split; [constructor; [exact I|exact HTr]|exact HR].
+        * destruct HTr as (HTr & HR & Hent). split; [constructor; [exact I|exact HTr]|]. split; [exact HR|].
+          intros t0 f1 [E|Hin].
+          -- injection E as <- <-. eexists _, f. split; [eapply nth_error_set_same; eauto|reflexivity].
+          -- destruct (Hent _ _ Hin) as (th1 & f' & Hn1 & Hp1). destruct (Nat.eq_dec t0 t) as [->|N].
+             ++ rewrite Hth in Hn1. injection Hn1 as <-. discriminate Hp1.
+             ++ exists th1, f'. rewrite nth_error_set_other by exact N. auto.
         * destruct HTr as (Hpre & f0 & thw & Hst & Hw & Hpcw). split; [constructor; [exact I|exact Hpre]|].
           exists f0, thw. split; [exact Hst|].
           assert (t <> w) as N.
@@ -261,7 +268,7 @@ Section OnceProofs.
     - (* PEnter: once.Do *)
       destruct o as [|w|]; simpl in *; [|discriminate|]; injection Hs as <-.
       + (* NotStarted -> Running t *)
-        destruct HTr as (HTr & HR).
+        destruct HTr as (HTr & HR & _).
         constructor; simpl; [exact HL| |].
         * eapply threads_set_change; eauto; try congruence.
           unfold thread_ok; simpl. repeat split; auto. intros _. apply Hrets. congruence.
@@ -660,5 +667,20 @@ Section OnceProofs.
     all: try (destruct (i <? arity); eexists; reflexivity).
     all: try (destruct (length acc <? arity); eexists; reflexivity).
     all: try (exfalso; apply Hx; auto).
+  Qed.
+
+  (* finished runs: if anybody called Do at all, exactly one function was started *)
+  Theorem finished_exactly_one progs s :
+    let c := run (init progs) s in
+    finished c -> (exists t f, In (EInv t f) (c_trace c)) -> length (starts (c_trace c)) = 1.
+  Proof.
+    intros c Hfin (t0 & f0 & Hinv). pose proof (reach_inv progs s) as HI. fold c in HI.
+    destruct (c_once c) eqn:Ho.
+    - exfalso. destruct HI as [_ _ HTr]. rewrite Ho in HTr. destruct HTr as (_ & _ & Hent).
+      destruct (Hent _ _ Hinv) as (th & f' & Hn & Hp).
+      destruct (Hfin _ _ Hn) as [A|(A & _)]; congruence.
+    - exfalso. destruct HI as [_ _ HTr]. rewrite Ho in HTr. destruct HTr as (_ & f & th & _ & Hn & Hpc).
+      destruct (Hfin _ _ Hn) as [A|(A & _)]; rewrite A in Hpc; exact Hpc.
+    - destruct (inv_done _ HI Ho) as (w & f & -> & _). reflexivity.
   Qed.
 End OnceProofs.
